@@ -83,6 +83,9 @@ class SimThread:
 
 
 class SimLock:
+    """threading.Lock look-alike (not reentrant)."""
+    _reentrant = False
+
     def __init__(self):
         self._owner = None
         self._n = 0
@@ -90,7 +93,7 @@ class SimLock:
     def acquire(self, blocking=True, timeout=-1):
         sch = S()
         me = sch.cur
-        if self._owner is me:
+        if self._reentrant and self._owner is me:
             self._n += 1
             return True
         if not blocking:
@@ -108,6 +111,8 @@ class SimLock:
         return True
 
     def release(self):
+        if self._owner is None:
+            raise RuntimeError('release unlocked lock')
         self._n -= 1
         if self._n <= 0:
             self._owner = None
@@ -122,6 +127,10 @@ class SimLock:
 
     def locked(self):
         return self._owner is not None
+
+
+class SimRLock(SimLock):
+    _reentrant = True
 
 
 class SimQueue:
